@@ -35,7 +35,7 @@ def report_notimpl(run, meta):
 
 def collect(run, rng, nworlds, nqueries, mode, thresholds_fn, quality, nsteps=(4, 14), ndocs=(4, 12), depth=2,
             scored_only=True, ops=NOFUZZY, spans=False, docgen=None, qgen=None, plangen=None, qbias=0.0,
-            blocklimits=(None, 1, 2, 3), nested=False):
+            blocklimits=(None, 1, 2, 3), nested=False, sweep=False):
     """Returns (traces, meta, listcases)."""
     trs, meta, cases = [], [], []
     for wi in range(nworlds):
@@ -76,6 +76,24 @@ def collect(run, rng, nworlds, nqueries, mode, thresholds_fn, quality, nsteps=(4
                         targets += [("leaf", sub, li) for li, (sub, off) in enumerate(s.leaf_searchers())]
                     kind, srch, leafno = rng.choice(targets)
                     nc = rng.random() < 0.5
+                    if sweep:
+                        # one short trace per threshold: fresh matcher, a few steps, skip_to_quality(threshold)
+                        probe = mtrace.Recorder(mode)
+                        okp, mp = probe.call("matcher()", lambda: q.matcher(srch, srch.context(needs_current=nc)))
+                        ths = sorted(set(thresholds_fn(probe, mp))) if okp else []
+                        for th in ths:
+                            rec = mtrace.Recorder(mode)
+                            ok, m = rec.call("matcher()", lambda: q.matcher(srch, srch.context(needs_current=nc)))
+                            if ok:
+                                mtrace.run_sweep(rec, m, rng.randrange(0, 4), th, blockscan=quality)
+                            ev = rec.finish()
+                            trs.append(ev)
+                            run.count(len(ev))
+                            meta.append({"q": aq, "target": kind, "leaf": leafno, "needs_current": nc, "weighting": wname,
+                                         "plan": plan, "idx": idx, "matcher": type(m).__name__ if ok else None,
+                                         "tree": repr(m)[:4000] if ok else "", "mode": mode, "program": rec.program,
+                                         "adocs": adocs, "blocklimit": w.blocklimit, "inlinelimit": il, "quality": quality})
+                        continue
                     rec = mtrace.Recorder(mode)
                     ok, m = rec.call("matcher()", lambda: q.matcher(srch, srch.context(needs_current=nc)))
                     if ok:
